@@ -415,6 +415,14 @@ def main() -> int:
     seed = int(os.environ.get('VERIF_SEED', '1') or '1')
     sys.setrecursionlimit(max(sys.getrecursionlimit(), 1000))
 
+    cov = None
+    if args.shard and os.environ.get('VERIF_COVERAGE'):
+        # development aid (tools/coverage_gaps.sh): which lines of exabgp does this check execute at all?
+        import coverage
+
+        cov = coverage.Coverage(data_file=os.path.join(os.environ['VERIF_COVERAGE'], f'cov.{prop}'), data_suffix=True, include=[REPO_SRC + '/*'])
+        cov.start()
+
     try:
         mod = importlib.import_module(f'props.{prop.lower()}')
     except Exception:  # noqa: BLE001
@@ -466,6 +474,10 @@ def main() -> int:
         except Exception:  # noqa: BLE001
             traceback.print_exc()
             return 2
+        finally:
+            if cov is not None:
+                cov.stop()
+                cov.save()
         with open(args.out, 'w') as fh:
             json.dump(res.to_json(), fh, default=str)
         return 0
